@@ -637,9 +637,14 @@ def check_scale(inp, which_outputs):
     if not np.array_equal(base[-1], new[-1]):
         return "perm changes from %r to %r when %s source %d is multiplied by %r" % (
             base[-1].tolist(), new[-1].tolist(), inp["scale_which"], inp["scale_index"], inp["scale_factor"])
+    # moderate factors: 1e-6 dB; extreme factors (|log2 c| >= 20) put sources of very different magnitude into one
+    # linear system, whose conditioning (and the code's eps regularisation) legitimately moves the result in the 5th
+    # decimal of a dB: 1e-3 dB there (what such factors are for is the *qualitative* failure: an exception, a NaN,
+    # a changed permutation)
+    tol = 1e-6 if abs(math.log2(abs(inp["scale_factor"]))) < 20 else 1e-3
     for o in which_outputs:
         for j in range(inp["nsrc"]):
-            if not _close(base[o][j], new[o][j], 1e-6):
+            if not _close(base[o][j], new[o][j], tol):
                 return "%s[%d] changes from %.9f to %.9f dB when %s source %d is multiplied by %r" % (
                     names[o], j, base[o][j], new[o][j], inp["scale_which"], inp["scale_index"], inp["scale_factor"])
     return None
@@ -883,7 +888,7 @@ def _gen_nonframewise(fnname):
                 r["check"] = rng.choice(["scale_sir_sar", "scale_sdr_isr"]) if images else "scale"
                 r["scale_which"] = rng.choice(["ref", "est"])
                 r["scale_index"] = rng.randrange(nsrc)
-                r["scale_factor"] = rng.choice([-3.7, 0.01, 2.5, 1000.0, -1.0, 0.3])
+                r["scale_factor"] = rng.choice([-3.7, 0.01, 2.5, 1000.0, -1.0, 0.3, 2.0 ** -30, -(2.0 ** -30), 2.0 ** 30])  # extreme factors are powers of two: exact in binary64
             elif pick < 0.65:
                 r["check"] = "perm"
             elif pick < 0.8:
